@@ -256,6 +256,66 @@ where
         top_loop::<A, MA, UP, GA, DE, SH, MCS>(b, ctx);
         finish_trace(ctx);
     }
+    leaked_claim_case::<A, MA, UP, GA, DE, SH, MCS>(ctx);
+}
+
+/// C14, after the trace proper (nothing here is replayed on the model; direct oracles only): a claim guard that is LEAKED
+/// (`mem::forget`) leaves the original handle claimed for good.  It must stay inert through every route that could hand
+/// out a usable arena: memory requests fail, `try_by_value()` returns `Err`, `by_value()` panics, a second claim panics.
+fn leaked_claim_case<A, const MA: usize, const UP: bool, const GA: bool, const DE: bool, const SH: bool, const MCS: usize>(ctx: &mut Ctx)
+where
+    A: TestBase + BaseAllocator<Bool<GA>>,
+    MinimumAlignment<MA>: SupportedMinimumAlignment,
+{
+    use bump_scope::traits::{BumpAllocatorScope, BumpAllocatorTypedScope};
+    if !(ctx.prof.name == "claims" || ctx.rng.chance(1, 12)) {
+        return;
+    }
+    BASE.with(|b| b.borrow_mut().reset(ctx.rng.next()));
+    let Ok(mut bump) = Bump::<A, S<MA, UP, GA, DE, SH, MCS>>::try_with_size_in(MCS, A::default()) else {
+        let _ = take_base_log();
+        return;
+    };
+    ctx.count("leaked claim guard: by_value / try_by_value / alloc on the claimed handle");
+    let before = bump.stats().count();
+    {
+        let scope = bump.as_mut_scope();
+        std::mem::forget(BumpAllocatorScope::claim(&*scope));
+    }
+    let mut bad: Vec<String> = Vec::new();
+    let scope = bump.as_mut_scope();
+    if !bump_scope::traits::BumpAllocatorCore::is_claimed(&*scope) {
+        bad.push("after a claim guard was leaked the handle does not report is_claimed()".into());
+    }
+    if scope.try_alloc(1u64).is_ok() {
+        bad.push("try_alloc through a handle whose claim guard was leaked succeeded".into());
+    }
+    if scope.try_by_value().is_ok() {
+        bad.push("try_by_value() on a claimed handle returned Ok (a usable by-value scope of a claimed arena)".into());
+    }
+    let r = catch_unwind(AssertUnwindSafe(|| {
+        let s = scope.by_value();
+        let _ = s.stats().count();
+    }));
+    if r.is_ok() {
+        bad.push("by_value() on a claimed handle returned normally instead of panicking".into());
+    }
+    let r = catch_unwind(AssertUnwindSafe(|| {
+        std::mem::forget(BumpAllocatorScope::claim(&*scope));
+    }));
+    if r.is_ok() {
+        bad.push("a second claim() on a claimed handle did not panic".into());
+    }
+    if scope.stats().count() != 0 {
+        bad.push(format!("a claimed handle reports {} chunk(s) in stats() (had {before} before the claim)", scope.stats().count()));
+    }
+    for m in bad {
+        ctx.oracle("C14", format!("LEAKED-CLAIM {m}"));
+    }
+    let _ = take_base_log();
+    // the arena is dropped while claimed: its chunk stays with the leaked guard (deliberately not audited)
+    drop(bump);
+    let _ = take_base_log();
 }
 
 fn log_failed_ctor(ctx: &mut Ctx, text: &str) {
